@@ -5,4 +5,4 @@ From C17 Require Gen_Leaves SorterSearch SorterSort Instance Checker.
 Separate Extraction
   Gen_Leaves.pvMultShift Gen_Leaves.pvGetStepCount Gen_Leaves.pvCompare
   Instance.FindHash Instance.Find Instance.GetBounds Instance.IsSorted
-  Instance.BinarySearch Instance.ExponentialSearch SorterSearch.pvFindOther SorterSearch.pvFindNext Checker.perm_check Instance.check_sort_output SorterSort.RadixSortG SorterSort.swap.
+  Instance.BinarySearch Instance.ExponentialSearch SorterSearch.pvFindOther SorterSearch.pvFindNext Checker.perm_check Instance.check_sort_output SorterSort.RadixSortG SorterSort.swap Instance.HashSort.
